@@ -251,6 +251,12 @@ def _compare(res, ref, ok_causes, net, bad, kind):
                     if res[t]["cause_element"][j] is not None else None
                 w = (ref[t]["cause_element"][j], int(ref[t]["cause_index"][j])) \
                     if ref[t]["cause_element"][j] is not None else None
+                if g is None and w is None and int(res[t]["cause_index"][j]) != int(ref[t]["cause_index"][j]):
+                    # "all values": also where no outage is the cause, both runs report the same (defined) value
+                    bad(f"cause_index-without-cause:{t}", kind,
+                        f"{t} #{j}: no cause element, cause_index {int(res[t]['cause_index'][j])} vs "
+                        f"{int(ref[t]['cause_index'][j])}")
+                    break
                 if g != w:
                     okset = (ok_causes.get(t) or [set()] * (j + 1))[j] if ok_causes.get(t) else set()
                     if g is None or w is None:
